@@ -8,6 +8,7 @@ import (
 	"github.com/buildbuildio/pebbles/requests"
 	"github.com/vektah/gqlparser/v2"
 	"github.com/vektah/gqlparser/v2/ast"
+	"github.com/vektah/gqlparser/v2/parser"
 
 	"verif/harness/coqprint"
 	"verif/harness/fake"
@@ -113,7 +114,20 @@ func stepsCoq(r *Rig, op gen.GenOp, logs []fake.LoggedRequest) []string {
 				break
 			}
 		}
-		out = append(out, fmt.Sprintf("mkCase %s [%s] %s %s", coqprint.SelectionSet(s.SelectionSet), strings.Join(ls, "; "), cv, fw))
+		names := map[string]bool{}
+		tsels := coqprint.TSelectionSet(s.SelectionSet, names)
+		hdr := "[]"
+		if qd, perr := parser.ParseQuery(&ast.Source{Input: s.QueryString}); perr == nil && len(qd.Operations) == 1 {
+			var hs []string
+			for _, vd := range qd.Operations[0].VariableDefinitions {
+				hs = append(hs, "("+coqprint.CoqStr(vd.Variable)+", "+coqprint.CoqStr(vd.Type.String())+")")
+			}
+			hdr = "[" + strings.Join(hs, "; ") + "]"
+		} else {
+			hdr = "[(\"<the step's QueryString does not parse>\", \"\")]"
+		}
+		out = append(out, fmt.Sprintf("mkCase %s [%s] %s %s\n    %s\n    %s\n    %s", coqprint.SelectionSet(s.SelectionSet), strings.Join(ls, "; "), cv, fw,
+			coqprint.HeaderTypes(r.Merged, names), tsels, hdr))
 		for _, t := range s.Then {
 			walk(t)
 		}
@@ -243,6 +257,6 @@ func driveC02(seed int64, tier, out, replay string) {
 	obs.Evaluations = idx
 	obs.DistinctNontrivial = len(distinct)
 	obs.Rule = "generated worlds x generated valid operations (arguments with literals and variables, nested fragments, aliases); every sub-request is parsed, validated against the RECEIVING service's own schema and has its variables coerced by that service (evaluating fakes); every plan step's selection set, VariablesList and forwarded variables are compared with the model; coverage and helper registration through the single-server comparison; non-trivial = plan has at least 2 steps"
-	hx.WriteCases(out, "From Pebbles Require Import Base.Json Plan.Vars Corr.C02.\nFrom Coq Require Import List String. Import ListNotations.\nOpen Scope string_scope.\n", "c2case", coq, "mismatches")
+	hx.WriteCases(out, "From Pebbles Require Import Base.Json Plan.Vars Plan.Header Corr.C02.\nFrom Coq Require Import List String. Import ListNotations.\nOpen Scope string_scope.\n", "c2case", coq, "mismatches")
 	obs.Write(out)
 }
